@@ -58,6 +58,7 @@ pub enum Op {
     Get { id: u64 },
     QueryIds { a: u64 },
     Flush,
+    SetExt { key: String, val: u64 },
     SaveExt { key: String, val: u64 },
     RemoveExt { key: String },
     CompactBtree,
@@ -74,7 +75,7 @@ impl Op {
     pub fn name(&self) -> &'static str {
         match self {
             Op::Add { .. } => "add", Op::Update { .. } => "update", Op::Remove { .. } => "remove", Op::Get { .. } => "get", Op::QueryIds { .. } => "query_ids",
-            Op::Flush => "flush", Op::SaveExt { .. } => "save_extension", Op::RemoveExt { .. } => "remove_extension",
+            Op::Flush => "flush", Op::SetExt { .. } => "set_extension", Op::SaveExt { .. } => "save_extension", Op::RemoveExt { .. } => "remove_extension",
             Op::CompactBtree => "compact_btree_index", Op::CompactBm25 => "compact_bm25_index", Op::Reconcile => "reconcile_storage",
             Op::Close => "close", Op::SetReadOnly(_) => "set_read_only", Op::DbSetReadOnly(_) => "db_set_read_only",
             Op::CloseCollection => "close_collection", Op::DeleteCollection => "delete_collection",
@@ -197,6 +198,7 @@ impl World {
                 match c.query_all_ids(Filter::Field(("a".to_string(), RangeQuery::Eq(Fv::U64(a))))).await { Ok(mut v) => { v.sort(); Ret::Ids(v) } Err(e) => classify(e) }
             }),
             Op::Flush => Box::pin(async move { match c.flush(unix_ms()).await { Ok(b) => Ret::Bool(b), Err(e) => classify(e) } }),
+            Op::SetExt { key, val } => Box::pin(async move { c.set_extension(key, Fv::U64(val)); Ret::Unit }),
             Op::SaveExt { key, val } => Box::pin(async move { match c.save_extension(key, Fv::U64(val)).await { Ok(()) => Ret::Unit, Err(e) => classify(e) } }),
             Op::RemoveExt { key } => Box::pin(async move { match c.remove_extension(&key).await { Ok(_) => Ret::Unit, Err(e) => classify(e) } }),
             Op::CompactBtree => Box::pin(async move { match c.compact_btree_index(&["a"]).await { Ok(()) => Ret::Unit, Err(e) => classify(e) } }),
@@ -288,4 +290,15 @@ pub fn consistency_failures(coll: &Arc<Collection>, probe_values: &[u64], bm25: 
         }
         bad
     })
+}
+
+pub const EXT_KEYS: [&str; 3] = ["k1", "k2", "k3"];
+pub const EXT_BASE: u64 = 1_000_000;
+/// extensions as pseudo-documents (id = EXT_BASE + key index, doc = (value, 0)) so that they take part in the
+/// same state comparison as the documents
+pub fn ext_id(key: &str) -> u64 { EXT_BASE + EXT_KEYS.iter().position(|k| *k == key).map(|i| i as u64 + 1).unwrap_or(99) }
+pub fn dump_exts(coll: &Arc<Collection>) -> BTreeMap<u64, (u64, u64)> {
+    let mut m = BTreeMap::new();
+    for k in EXT_KEYS { if let Some(Fv::U64(v)) = coll.get_extension(k) { m.insert(ext_id(k), (v, 0)); } }
+    m
 }
